@@ -333,7 +333,7 @@ def neighbour_filters(facts, b):
     return selfx, base, off, strict, (flt[0] if flt else None)
 
 
-def check(facts, res, R, cls, U):
+def check(facts, res, R, cls, U, thorough=False):
     far = Builder(facts, cls, "getInteractionListForIndex")
     near = Builder(facts, cls, "getNeighborListForIndex")
     f = tbf.rel(facts.path_of(far.fn))
@@ -352,7 +352,7 @@ def check(facts, res, R, cls, U):
     res.instance(R, "%s constants" % cls, facts.loc(far.fn), "interaction list: window on the parent %s at the border / %s inside, far iff some |d| > %d, empty below level %d; neighbour list: window %s / %s, self excluded, code base %d offset %d, upper half %s; transfers from level U = %d"
                  % (far.window(0, 3), far.window(1, 3), T, G, near.window(0, 3), near.window(1, 3), base, off, "strict" if strict else "NOT the strict upper half", U))
     n = 0
-    for D, heights in ((1, range(2, 8)), (2, range(2, 6))):
+    for D, heights in ((1, range(2, 8)), (2, range(2, 6))) + (((3, range(2, 5)),) if thorough else ()):
         for H in heights:
             L = H - 1
             side = 1 << L
@@ -401,7 +401,7 @@ def check(facts, res, R, cls, U):
     return n
 
 
-def check_periodic(facts, res, R, cls, U):
+def check_periodic(facts, res, R, cls, U, thorough=False):
     """the periodic real tree alone: with the constants read from the builders (periodic side of their constexpr branches: window without
     clamps, wrap of the candidate parent and the shift added to its children's coordinates, empty-below level) and transfers from level U,
     every UNWRAPPED leaf cell z of the images -1 .. 1 other than the target x itself reaches x exactly once, and no cell outside that cube
@@ -417,7 +417,7 @@ def check_periodic(facts, res, R, cls, U):
     res.instance(R, "%s periodic constants" % cls, facts.loc(far.fn), "interaction list: window %s (no clamp), wrap of parent -1 at level 3 -> %s, of parent 4 -> %s, far iff some |d| > %d, empty below level %d; neighbour window %s; transfers from level U = %d"
                  % (far.window(0, 3, True), far.wrap(-1, 3), far.wrap(4, 3), T, G, near.window(0, 3, True), U))
     n = 0
-    for D, heights in ((1, range(1, 7)), (2, range(1, 5))):
+    for D, heights in ((1, range(1, 7)), (2, range(1, 5))) + (((3, range(1, 4)),) if thorough else ()):
         for H in heights:
             L = H - 1
             side = 1 << L
